@@ -181,6 +181,14 @@ fn book(rep: &mut Report, f: &[TNode], med: &refres::Mediated<'_>) {
             if let Some(o) = e.version_from { rep.count(&format!("managed_version.{}", origin_name(o))); }
             if let Some(o) = e.scope_from { rep.count(&format!("managed_scope.{}", origin_name(o))); }
             if e.scope.is_none() { rep.count("scope.defaulted_to_compile"); }
+            // types that imply a classifier (artifact handler table)
+            if e.implied { rep.count("implied_classifier.dependency_leaves_it_to_the_type"); }
+            if implied_classifier(&n.coord.type_).is_some() && n.coord.classifier.as_deref() == implied_classifier(&n.coord.type_) {
+                let spelt = |b: bool| if b { "implied" } else { "explicit" };
+                if let Some(o) = e.version_from { rep.count(&format!("implied_classifier.managed_version.{}", origin_name(o))); }
+                if let Some(o) = e.scope_from { rep.count(&format!("implied_classifier.managed_scope.{}", origin_name(o))); rep.count("implied_classifier.managed_scope.any"); }
+                if let Some(me) = e.entry_implied { rep.count(&format!("implied_classifier.lookup.dependency_{}.entry_{}", spelt(e.implied), spelt(me))); }
+            }
         } else { rep.count(&format!("root.{}", n.scope.name())); }
         for (left, top, optional) in &n.cuts {
             if *optional { rep.count("cut.optional"); } else { rep.count(&format!("cut.{}x{}", left.name(), top.name())); }
@@ -191,6 +199,18 @@ fn book(rep: &mut Report, f: &[TNode], med: &refres::Mediated<'_>) {
         if n.coord.classifier.is_some() { rep.count("coordinate.classifier"); }
         rep.seen("types", &n.coord.type_);
         rep.max("max.depth", n.depth as u64);
+    }
+    // artifacts that differ only in a type of the same file extension stay distinct
+    let mut by_ext: BTreeMap<(String, String, Option<String>, String), BTreeSet<(String, String)>> = BTreeMap::new();
+    for n in &med.kept { by_ext.entry((n.coord.group.clone(), n.coord.artifact.clone(), n.coord.classifier.clone(), extension_of(&n.coord.type_).to_string())).or_default().insert((n.coord.type_.clone(), n.coord.version.clone())); }
+    for ((_, _, cl, _), tv) in &by_ext {
+        let types: BTreeSet<&String> = tv.iter().map(|(t, _)| t).collect();
+        if types.len() > 1 {
+            rep.count("identity.same_extension_other_type_both_kept");
+            if tv.iter().map(|(_, v)| v).collect::<BTreeSet<_>>().len() > 1 { rep.count("identity.same_extension_other_type_both_kept.versions_differ"); }
+            if cl.is_some() { rep.count("identity.same_extension_other_type_both_kept.with_classifier"); }
+            rep.seen("types_sharing_an_extension", &types.iter().map(|t| t.as_str()).collect::<Vec<_>>().join("+"));
+        }
     }
     for l in &med.losses {
         rep.count(&format!("conflict.loser_at_depth.{}", match l.depth { 1 => "1", 2 => "2", _ => "3_or_more" }));
@@ -419,6 +439,20 @@ fn canaries() {
         let r = refres::resolve(&u, o, 100).unwrap_or_else(|e| bad(&e));
         if names(&r) != ["Z:1.0:test", "a:1.1:test", "b:3.0:test"] { bad(&format!("import example gives {:?}", names(&r))); }
     }
+    // --- artifact handler table: a type stands for its classifier in dependencies and in management entries alike
+    let tj = |classifier: Option<&str>, version: Option<&str>| Decl { type_: Some("test-jar".into()), classifier: classifier.map(|c| c.into()), ..dep("test", "a", version) };
+    if tj(None, None).key() != tj(Some("tests"), None).key() || tj(None, None).key().classifier.as_deref() != Some("tests") || dep("test", "a", None).key().classifier.is_some() { bad("implied classifier of test-jar"); }
+    for (entry, use_) in [(tj(None, Some("1.1")), tj(Some("tests"), None)), (tj(Some("tests"), Some("1.1")), tj(None, None)), (tj(None, Some("1.1")), tj(None, None))] {
+        let (gq, mut pq) = pom("maven", "Q", "1.0", vec![use_, Decl { type_: Some("ejb".into()), ..dep("test", "a", Some("1.2")) }, dep("test", "a", Some("1.0"))]);
+        pq.mgmt = vec![entry];
+        let u = uni(vec![(gq, pq), lib("a", "1.0", vec![]), lib("a", "1.1", vec![]), lib("a", "1.2", vec![])], vec![("maven", "Q", "1.0", Scope::Compile)]);
+        let show = |r: Vec<Found>| r.iter().map(|f| f.coord.show()).collect::<Vec<_>>();
+        let r = show(refres::resolve(&u, Opts::TRUE, 100).unwrap_or_else(|e| bad(&e)));
+        if r != ["maven:Q:jar:1.0", "test:a:test-jar:tests:1.1", "test:a:ejb:1.2", "test:a:jar:1.0"] { bad(&format!("implied classifier / type identity example gives {r:?}")); }
+        if refres::resolve(&u, Opts::faulty(Fault::KeyByExtension), 100).map(show).ok() == Some(r.clone()) { bad("conflict id by extension changes nothing on jar vs ejb"); }
+        let f = refres::resolve(&u, Opts::faulty(Fault::LookupDeclaredClassifier), 100);
+        if u.repos[0].poms[&Gav::new("maven", "Q", "1.0")].deps[0].classifier.is_none() && f.is_ok() { bad("lookup with the declared classifier still finds the managed version"); }
+    }
     // --- scope table as printed in the documentation
     use Scope::*;
     let table = [(Compile, [Some(Compile), None, Some(Runtime), None]), (Provided, [Some(Provided), None, Some(Provided), None]), (Runtime, [Some(Runtime), None, Some(Runtime), None]), (Test, [Some(Test), None, Some(Test), None])];
@@ -460,7 +494,7 @@ fn main() {
          distinct = fingerprint of the mediated tree (depth, scope, artifact identity, type, origin of the declaration and of the managed version, cuts, losses); every text case counts as non-trivial, distinct = character-class shape of the displayed coordinate")
         .assume("POM XML is turned into MavenPom by serde-xml-rs, as the repository's downloader does; XML parsing itself is not judged")
         .assume("the reference resolver (refres.rs) is a faithful reading of Maven's documented rules for the stated subset; two formulations of it are cross-checked on every case and the documented examples are canaries")
-        .assume("not generated / not judged: interpolation, ranges, exclusions, profiles, re-declared parent dependencies, import vs. ancestor-explicit precedence, explicit entries after a clashing import, <optional> in management, handler-implied classifiers, system-scoped roots with dependencies, unresolvable universes");
+        .assume("not generated / not judged: interpolation, ranges, exclusions, profiles, re-declared parent dependencies, import vs. ancestor-explicit precedence, explicit entries after a clashing import, <optional> in management, roots of a classifier-implying type without the classifier, an explicit classifier other than the implied one on such a type, system-scoped roots with dependencies, unresolvable universes");
     if ctx.replay.is_none() {
         let need = |meta: &mut Meta, k: &str, min: u64| meta.oblige(format!("at least {min} observations of {k}"), rep.get(k) >= min);
         for left in ["compile", "provided", "runtime", "test"] { for top in ["compile", "runtime"] { need(&mut meta, &format!("cell.{left}x{top}"), 10); } }
@@ -472,11 +506,20 @@ fn main() {
             "declared_by.parent", "declared_by.grandparent_or_higher", "inherit.group", "inherit.version",
             "repository.not_the_first_one", "repository.later_one_serves_a_different_file", "cut.target_not_published", "coordinate.classifier",
             "root.compile", "root.runtime", "root.test", "root.provided", "root.system", "override.child_manages_inherited_dependency", "override.changes_the_result",
+            "implied_classifier.dependency_leaves_it_to_the_type",
+            "implied_classifier.managed_version.own.declared", "implied_classifier.managed_version.parent.declared", "implied_classifier.managed_version.grandparent_or_higher.declared",
+            "implied_classifier.managed_version.own.imported_bom", "implied_classifier.managed_version.parent.imported_bom",
+            "implied_classifier.managed_scope.own.declared", "implied_classifier.managed_scope.any",
+            "implied_classifier.lookup.dependency_implied.entry_explicit", "implied_classifier.lookup.dependency_explicit.entry_implied", "implied_classifier.lookup.dependency_implied.entry_implied",
+            "identity.same_extension_other_type_both_kept.versions_differ", "identity.same_extension_other_type_both_kept.with_classifier",
             "text.coord.classifier_absent", "text.coord.classifier_present", "text.coord.classifier_empty", "text.coord.type_jar", "text.coord.type_other", "text.scope.round_trip", "text.scope.rejected_non_scope"] {
             need(&mut meta, k, 5);
         }
         for (_, name) in FAULTS { need(&mut meta, &format!("would_expose.{name}"), 20); }
         need(&mut meta, "nontrivial", 500);
+        need(&mut meta, "identity.same_extension_other_type_both_kept", 20);
+        meta.oblige("every type of the handler table that implies a classifier or shares the jar extension occurs in a resolved list",
+            ["jar", "ejb", "maven-plugin", "bundle", "test-jar", "ejb-client", "java-source", "javadoc", "war", "pom"].iter().all(|t| rep.sets.get("types").is_some_and(|s| s.contains(*t))));
         meta.oblige("no universe was skipped because the documentation leaves an import precedence open (the generator avoids them)", rep.get("skipped.open_import_precedence") * 50 <= rep.get("cases.universes").max(1));
         meta.oblige("fewer than 2% of the universes skipped as too big to expand", rep.get("skipped.unmediated_tree_too_big") * 50 <= rep.get("cases.universes").max(1));
     }
